@@ -467,3 +467,74 @@ def enum_index(E, fa, op):
             rv = d[3]
             pl = op_place(rv["op"]) if rv["k"] in ("use", "cast") else rv["place"] if rv["k"] == "ref" else None
     return False
+
+
+# rucrf's tables and the base of the ids that index them (confirmed by reading rucrf 0.3.3):
+#   unigram_weight_indices[fid - 1]   forward_backward.rs:75,176  `unigram_weight_indices[fid]` with
+#                                     fid = feature id - 1 (feature ids are NonZeroU32, 1-based)
+#   bigram_weight_indices[left_fid]   feature.rs:33-60: index 0 is the BOS/EOS feature, so a
+#                                     NonZeroU32 left feature id indexes the table as it is
+IDX_BASE = {"unigram_weight_indices": 1, "bigram_weight_indices": 0}
+
+
+def idxbase(ctx):
+    """IDXBASE (C14): a 1-based feature id (NonZeroU32::get) used to index one of rucrf's weight
+    tables is shifted by exactly the table's base. The unigram table is 0-based by `id - 1`; the
+    bigram table keeps slot 0 for BOS/EOS and is indexed by the id itself. An id used with the
+    other table's convention still compiles, stays in range, and prunes the wrong features."""
+    from sym import Sym, show, strip_casts
+    crate = ctx.facts("A").lib
+    E = Effects(crate)
+    n = 0
+    for p, f in sorted(crate.fns.items()):
+        if not f.body or f.krate != "vibrato":
+            continue
+        fa = E.fa(p)
+        S = None
+        for b, t in fa.calls():
+            ps = [strip_generics(x) for x in callee_paths(t)]
+            if not any(x.endswith("::get") or x.endswith("::index") or x.endswith("get_unchecked")
+                       for x in ps) or len(t["args"]) != 2:
+                continue
+            S = S or Sym(E, fa)
+            recv = S.operand(t["args"][0])
+            table = None
+            if recv[0] == "call":
+                for k in IDX_BASE:
+                    if recv[1].endswith("::" + k):
+                        table = k
+            if table is None:
+                continue
+            idx = strip_casts(S.operand(t["args"][1]))
+            # peel from_u32 / from / as usize
+            for _ in range(4):
+                if idx[0] == "call" and idx[1].rsplit("::", 1)[-1] in ("from_u32", "from", "try_from", "unwrap") \
+                        and idx[2]:
+                    idx = strip_casts(idx[2][0])
+            shift = None
+            core = idx
+            if idx[0] == "binop" and idx[1] in ("Sub", "SubWithOverflow") and idx[3][0] == "const":
+                shift = idx[3][1]
+                core = strip_casts(idx[2])
+            elif idx[0] == "binop" and idx[1] in ("Add", "AddWithOverflow") and idx[3][0] == "const":
+                shift = -idx[3][1]
+                core = strip_casts(idx[2])
+            else:
+                shift = 0
+            is_id = core[0] == "call" and core[1].endswith("::get") and "NonZero" in core[1] or \
+                (core[0] == "call" and core[1].rsplit("::", 1)[-1] == "get" and not core[2][1:])
+            if not is_id:
+                continue        # not indexed by a feature id (loop counter etc.)
+            n += 1
+            want = IDX_BASE[table]
+            ok = shift == want
+            ctx.ob("IDXBASE", "%s|%s|%d" % (p, table, sum(
+                1 for o in ctx.obs if o.key.startswith("IDXBASE|%s|%s|" % (p, table)))), ok, fa.loc(b),
+                "%s()[id - %d] in %s: the table's base" % (table, want, p.split("::")[-1]) if ok else
+                "%s() is indexed with `id - %s` in %s but the table expects `id - %d` (%s): the "
+                "entry of a neighbouring feature is consulted, so the wrong features are kept or "
+                "pruned and user-lexicon rows get ids without trained weights"
+                % (table, shift, p.split("::")[-1], want,
+                   "feature ids are 1-based, the table 0-based" if want else
+                   "slot 0 is the BOS/EOS feature"))
+    ctx.floor("IDXBASE", "feature-id indexed accesses to rucrf weight tables", n, 2)
